@@ -388,24 +388,15 @@ Fixpoint map_axes (v : variant) (m01 m10 : amap) (z : list (string * string))
   match z with
   | [] => Ok (Some (m01, m10))
   | (a0, a1) :: r =>
-      let go := map_axes v (if mem a0 (keys m01) then m01 else m01 ++ [(a0, a1)])
-                           (if mem a1 (keys m10) then m10 else m10 ++ [(a1, a0)]) r in
-      match assoc a0 m01 with
-      | Some b =>
-          if negb (String.eqb a1 b) then
-            (* "Ambiguous axis mapping": the message calls domain_axis_identity on a tuple *)
-            if fixD v then Ok None else Err ValueErr
-          else go
-      | None =>
-          match assoc a1 m10 with
-          | Some b0 =>
-              if negb (String.eqb a0 b0) then
-                if fixD v then Ok None
-                else if mem a0 (keys m10) then Err ValueErr else Err KeyErr
-              else go
-          | None => go
-          end
-      end
+      if match assoc a0 m01 with Some b => negb (String.eqb a1 b) | None => false end then
+        (* "Ambiguous axis mapping": the message called domain_axis_identity on a tuple *)
+        (if fixD v then Ok None else Err ValueErr)
+      else if match assoc a1 m10 with Some b0 => negb (String.eqb a0 b0) | None => false end then
+        (* the message looked axis0 up in axis1_to_axis0, then did the same *)
+        (if fixD v then Ok None else if mem a0 (keys m10) then Err ValueErr else Err KeyErr)
+      else
+        map_axes v (if mem a0 (keys m01) then m01 else m01 ++ [(a0, a1)])
+                   (if mem a1 (keys m10) then m10 else m10 ++ [(a1, a0)]) r
   end.
 
 Fixpoint zip {A B} (l1 : list A) (l2 : list B) : list (A * B) :=
